@@ -233,6 +233,19 @@ def make_monitor(kind, tmpdir=None, label='m'):
     raise KeyError(kind)
 
 
+class FalsyCallable(object):
+    """a legal callback: callable, but - like an empty recorder list with __call__ - false in a boolean context"""
+
+    def __init__(self, f):
+        self.f = f
+
+    def __call__(self, *a, **k):
+        return self.f(*a, **k)
+
+    def __len__(self):
+        return 0
+
+
 SOLVERS = ('NM', 'Powell', 'DE', 'DE2')
 
 
@@ -273,6 +286,8 @@ class Lab(object):
             self.solver = self._build()
         if cfg.get('instrument', True):
             self._instrument()
+        if cfg.get('callback_kind') == 'falsy':
+            self.callback = FalsyCallable(self.callback)    # a callable object whose truth value is False
 
     # .................................................. environment
     @contextlib.contextmanager
